@@ -416,12 +416,6 @@ func restoreUnitsOf(p *Program, tier string, helpers bool) ([]*Unit, []UnitError
 
 func init() {
 	register(&Property{
-		ID:       "C17dev",
-		Title:    "development: decorateNode units",
-		Packages: []string{pkgDecorator},
-		Build:    buildDecorateNode,
-	})
-	register(&Property{
 		ID:       "C12",
 		Title:    "Restored ASTs carry a coherent position space",
 		Packages: []string{pkgDecorator},
@@ -443,8 +437,14 @@ func init() {
 		ID:       "C11",
 		Title:    "Node maps are exact inverse correspondences between ast and dst",
 		Packages: []string{pkgDecorator},
-		Build:    func(p *Program, tier string) ([]*Unit, []UnitError) { return restoreUnitsOf(p, tier, false) },
-		Select:   func(n string) bool { return reMaps.MatchString(n) || strings.Contains(n, "#fields:") },
+		Build: func(p *Program, tier string) ([]*Unit, []UnitError) {
+			us, es := restoreUnitsOf(p, tier, false)
+			us2, es2 := buildDecorateNode(p, tier)
+			return append(us, us2...), append(es, es2...)
+		},
+		Select: func(n string) bool {
+			return reMaps.MatchString(n) || strings.Contains(n, "#fields:") || strings.Contains(n, "#maps:registered_before_recursion")
+		},
 		Siblings: "C12 (position space), C04 (tape), C06 (duplicates)",
 		Assumptions: []string{
 			"the inverse laws are carried per entry: each case registers its own pair and no call changes an entry that existed when it started; the global statement follows by induction over the tree (not machine-checked as one formula)",
@@ -455,11 +455,15 @@ func init() {
 		ID:       "C03",
 		Title:    "Tokens and comments survive decorate+print for any parseable source",
 		Packages: []string{pkgDecorator},
-		Build:    func(p *Program, tier string) ([]*Unit, []UnitError) { return restoreUnitsOf(p, tier, false) },
+		Build: func(p *Program, tier string) ([]*Unit, []UnitError) {
+			us, es := restoreUnitsOf(p, tier, false)
+			us2, es2 := buildDecorateNode(p, tier)
+			return append(us, us2...), append(es, es2...)
+		},
 		Select:   func(n string) bool { return reFields.MatchString(n) || strings.HasSuffix(n, "#tape:children_once") },
 		Siblings: "C11 (maps), C12 (position space), C04 (tape)",
 		Assumptions: []string{
-			"partial: decides the slip the statement names (a missing child or token-carrying field in a generated case) on the restore side; the decorate side and exactly-once comment emission are claimed separately when built",
+			"partial: decides the slip the statement names (a missing child or token-carrying field in a generated case) in both directions: decorateNode carries every child, list, token and string field of ast.T to dst.T and restoreNode carries it back; comment attachment (fragment/link) and exactly-once comment emission are not under contract",
 			"go/printer prints exactly the tokens of the ast it is given (assumed)",
 			"File.Imports and File.Unresolved are cross references and deliberately not restored; FuncType.Func inside a FuncDecl is not mirrored (a declaration always has the keyword)",
 		},
